@@ -460,7 +460,7 @@ def kernels(tier):
     # XY mode on a device WITHOUT reusable channels ("each channel can be declared once" holds for the microwave channel too)
     for prefix in ([], ["D_mw"], ["D_g"], ["D_mw", "ADD_mw"]):
         for first in range(len(ALL)):
-            ks.append(("history", dict(device="mock_noreuse", k=2 if quick else 3, first=first, prefix=prefix)))
+            ks.append(("history", dict(device="mock_noreuse", k=2, first=first, prefix=prefix)))
     return ks
 
 
